@@ -8,5 +8,11 @@ def fallbackLock : String := "the_context_state_propagation_mutex"
 def propagatorLocks : List String := ["my_threads_list_mutex", "the_context_state_propagation_mutex"]
 def propagatorHoldsPropagationMutex : Bool := true
 def bindCopyNeverClears : Bool := true
+/-- the members of its own context that task_group_context_impl::reset stores to, in program order -/
+def resetStores : List String := ["my_exception", "my_cancellation_requested"]
+/-- the stores of reset to the modelled fields, in program order (0 = my_cancellation_requested := 0, 1 = my_may_have_children := 0) -/
+def resetSeqCode : List Nat := [0]
+def resetClearsCancelFlag : Bool := resetSeqCode.contains 0
+def resetClearsMayHaveChildren : Bool := resetSeqCode.contains 1
 
 end TbbVerif.Generated.C04
